@@ -114,6 +114,7 @@ class Run:
             else:
                 data = bytes(((inp["seed"] * 29 + i * 7) % 254) + 1 for i in range(inp["len"]))
                 f.write_text(own_hex(a, data, rl=inp.get("rl", 16)))
+            core.through_link(f, (inp["seed"] + k) % 4 == 3)
             files.append(str(f))
             inputs.append([inp["off"], list(data)])
         out = d / "merged.hex"
